@@ -69,23 +69,7 @@ func runC02(c *core.Ctx) {
 		c.Missing(slb + " / " + gslb)
 		return
 	}
-	// ---- comparators ------------------------------------------------------------------------
-	for _, cmp := range []struct{ pkg, typ, field string }{{slb, "BackendListSorter", "AddrInfo"}, {gslb, "SubClusterListSorter", "Name"}} {
-		fn := c.P.Func(cmp.pkg, cmp.typ+".Less")
-		if fn == nil {
-			c.Missing(cmp.pkg + "." + cmp.typ + ".Less")
-			continue
-		}
-		c.Analysed(core.FuncKey(fn))
-		ok := false
-		for _, r := range core.Returns(fn) {
-			if b, isB := r.Results[0].(*ssa.BinOp); isB && b.Op == token.LSS && strings.HasSuffix(core.Render(b.X), "."+cmp.field) && strings.HasSuffix(core.Render(b.Y), "."+cmp.field) &&
-				strings.Contains(core.Render(b.X), "[i]") && strings.Contains(core.Render(b.Y), "[j]") {
-				ok = true
-			}
-		}
-		c.Check("comparator", cmp.typ+".Less", fn.Pos(), ok, cmp.typ+".Less must be the strict order `l[i]."+cmp.field+" < l[j]."+cmp.field+"` on the unique immutable key (a non-strict or different key makes the walked order depend on history)")
-	}
+	checkComparators(c, "comparator")
 	// ---- BalanceRR.backends / sorted field pair -------------------------------------------------
 	bf, ok1 := c.P.Obj(slb, "BalanceRR.backends").(*types.Var)
 	sf, ok2 := c.P.Obj(slb, "BalanceRR.sorted").(*types.Var)
@@ -522,4 +506,27 @@ func textprotoCanonical(s string) string {
 		upper = c == '-'
 	}
 	return string(b)
+}
+
+// checkComparators: the two list comparators are strict orders on the unique
+// immutable keys (AddrInfo, Name). Shared by C02 and C14.
+func checkComparators(c *core.Ctx, rule string) {
+	const slb, gslb = "bfe_balance/bal_slb", "bfe_balance/bal_gslb"
+	// ---- comparators ------------------------------------------------------------------------
+	for _, cmp := range []struct{ pkg, typ, field string }{{slb, "BackendListSorter", "AddrInfo"}, {gslb, "SubClusterListSorter", "Name"}} {
+		fn := c.P.Func(cmp.pkg, cmp.typ+".Less")
+		if fn == nil {
+			c.Missing(cmp.pkg + "." + cmp.typ + ".Less")
+			continue
+		}
+		c.Analysed(core.FuncKey(fn))
+		ok := false
+		for _, r := range core.Returns(fn) {
+			if b, isB := r.Results[0].(*ssa.BinOp); isB && b.Op == token.LSS && strings.HasSuffix(core.Render(b.X), "."+cmp.field) && strings.HasSuffix(core.Render(b.Y), "."+cmp.field) &&
+				strings.Contains(core.Render(b.X), "[i]") && strings.Contains(core.Render(b.Y), "[j]") {
+				ok = true
+			}
+		}
+		c.Check(rule, cmp.typ+".Less", fn.Pos(), ok, cmp.typ+".Less must be the strict order `l[i]."+cmp.field+" < l[j]."+cmp.field+"` on the unique immutable key (a non-strict or different key makes the walked order depend on history)")
+	}
 }
